@@ -153,7 +153,7 @@ func crashScenario(c *core.Ctx) {
 	if cfg.IOErr != nil {
 		iof = installIOFaults(c, cfg.IOErr)
 		defer iof.uninstall()
-		icfg.SegType = simzapType
+		icfg.SegType, icfg.SegVer = simzapType, 0 // the wrapper plugin is zap v17
 		env.Tainted = func() bool { return iof.firedCount() > 0 }
 	}
 
